@@ -64,13 +64,34 @@ type c10Net struct {
 	Mask []byte `json:"mask"`
 }
 
+// c10Opt is one TrustOption as passed to the extractor constructor.
+type c10Opt struct {
+	K   int     `json:"k"`             // 0 TrustLoopback(V), 1 TrustLinkLocal(V), 2 TrustPrivateNet(V), 3 TrustIPRange(Net)
+	V   bool    `json:"v,omitempty"`   // K 0..2
+	Net *c10Net `json:"net,omitempty"` // K 3
+}
+
+type c10ReqJ struct {
+	Remote lat1   `json:"remote"`
+	Real   []lat1 `json:"real"`
+	XFF    []lat1 `json:"xff"`
+}
+
 type c10Case struct {
-	Kind int      `json:"kind"` // 0 = requests through one extractor, 1 = classification table
-	Ext  int      `json:"ext"`  // 0 direct, 1 X-Real-IP, 2 X-Forwarded-For
-	LB   bool     `json:"trust_loopback"`
-	LL   bool     `json:"trust_linklocal"`
-	PN   bool     `json:"trust_private"`
-	Nets []c10Net `json:"nets"`
+	Kind int `json:"kind"` // 0 = requests through one extractor, 1 = classification table
+	Ext  int `json:"ext"`  // 0 direct, 1 X-Real-IP, 2 X-Forwarded-For
+	// the options in the order they are given to ExtractIPFrom...Header(opts...): any
+	// interleaving of flag and range options, flags repeated, flags absent (default true)
+	Opts []c10Opt `json:"opts"`
+	// the property's reading of Opts (derive): a flag is the last value given for it, true when
+	// the option is absent; every range counts
+	LB   bool     `json:"-"`
+	LL   bool     `json:"-"`
+	PN   bool     `json:"-"`
+	Nets []c10Net `json:"-"`
+	// further, unrelated requests served afterwards by the same Echo instance / extractor
+	// closure; the base request is repeated after them and must give the same answer
+	More []c10ReqJ `json:"more"`
 	// Kind 0
 	Remote lat1     `json:"remote"`
 	Real   []lat1   `json:"real"`     // X-Real-Ip values
@@ -87,29 +108,112 @@ type c10Req struct {
 	xff    []string
 }
 
+// derive evaluates the option list the way the property reads it.
+func (c *c10Case) derive() {
+	c.LB, c.LL, c.PN, c.Nets = true, true, true, nil
+	for _, o := range c.Opts {
+		switch o.K {
+		case 0:
+			c.LB = o.V
+		case 1:
+			c.LL = o.V
+		case 2:
+			c.PN = o.V
+		default:
+			if o.Net != nil {
+				c.Nets = append(c.Nets, *o.Net)
+			}
+		}
+	}
+}
+
+func (n c10Net) ipnet() *net.IPNet {
+	nn := &net.IPNet{IP: net.IP(append([]byte(nil), n.IP...)), Mask: net.IPMask(append([]byte(nil), n.Mask...))}
+	if len(n.IP) == 0 {
+		nn.IP = nil
+	}
+	if len(n.Mask) == 0 {
+		nn.Mask = nil
+	}
+	return nn
+}
+
+// options builds the real TrustOption values in the order of c.Opts and, separately, the
+// ranges for the reference reading (own copies).
 func (c *c10Case) options() ([]echo.TrustOption, []*net.IPNet) {
-	opts := []echo.TrustOption{echo.TrustLoopback(c.LB), echo.TrustLinkLocal(c.LL), echo.TrustPrivateNet(c.PN)}
+	c.derive()
+	var opts []echo.TrustOption
+	for _, o := range c.Opts {
+		switch o.K {
+		case 0:
+			opts = append(opts, echo.TrustLoopback(o.V))
+		case 1:
+			opts = append(opts, echo.TrustLinkLocal(o.V))
+		case 2:
+			opts = append(opts, echo.TrustPrivateNet(o.V))
+		default:
+			if o.Net != nil {
+				opts = append(opts, echo.TrustIPRange(o.Net.ipnet()))
+			}
+		}
+	}
 	var nets []*net.IPNet
 	for _, n := range c.Nets {
-		nn := &net.IPNet{IP: net.IP(append([]byte(nil), n.IP...)), Mask: net.IPMask(append([]byte(nil), n.Mask...))}
-		if len(n.IP) == 0 {
-			nn.IP = nil
-		}
-		if len(n.Mask) == 0 {
-			nn.Mask = nil
-		}
-		nets = append(nets, nn)
-		opts = append(opts, echo.TrustIPRange(nn))
+		nets = append(nets, n.ipnet())
 	}
 	return opts, nets
 }
 
 func (c *c10Case) cfgWire() string {
-	parts := []string{wBool(c.LB), wBool(c.LL), wBool(c.PN), wInt(len(c.Nets))}
-	for _, n := range c.Nets {
-		parts = append(parts, wBytes(n.IP), wBytes(n.Mask))
+	var parts []string
+	k := 0
+	for _, o := range c.Opts {
+		switch o.K {
+		case 0, 1, 2:
+			parts = append(parts, wInt(o.K), wBool(o.V))
+			k++
+		default:
+			if o.Net != nil {
+				parts = append(parts, "3", wBytes(o.Net.IP), wBytes(o.Net.Mask))
+				k++
+			}
+		}
 	}
-	return strings.Join(parts, " ")
+	return strings.Join(append([]string{wInt(k)}, parts...), " ")
+}
+
+func (c *c10Case) optTags() []string {
+	t := []string{fmt.Sprintf("opts-%d", c10Min(len(c.Opts), 8))}
+	seenFlag, rangeFirst, repeated := map[int]bool{}, false, false
+	nr := 0
+	for i, o := range c.Opts {
+		if o.K == 3 {
+			nr++
+			for _, p := range c.Opts[i+1:] {
+				if p.K != 3 {
+					rangeFirst = true
+				}
+			}
+			continue
+		}
+		if seenFlag[o.K] {
+			repeated = true
+		}
+		seenFlag[o.K] = true
+	}
+	if len(seenFlag) < 3 {
+		t = append(t, "opts-flag-defaulted")
+	}
+	if rangeFirst {
+		t = append(t, "opts-range-before-flag")
+	}
+	if repeated {
+		t = append(t, "opts-flag-repeated")
+	}
+	if nr > 2 {
+		t = append(t, "opts-many-ranges")
+	}
+	return t
 }
 
 var (
@@ -224,23 +328,27 @@ func c10Run(ci any) (res Result) {
 	tags := []string{fmt.Sprintf("ext-%d", c.Ext), fmt.Sprintf("nets-%d", len(c.Nets)),
 		fmt.Sprintf("flags-%s%s%s", wBool(c.LB), wBool(c.LL), wBool(c.PN))}
 
+	tags = append(tags, c.optTags()...)
 	base := c10Req{string(c.Remote), unlat1s(c.Real), unlat1s(c.XFF)}
 	host := c10Host(base.remote)
 	hostIP := net.ParseIP(host)
 	reqs := []c10Req{base}
-	// kind of relational expectation for variant i (index into reqs, i >= 1)
+	// kind of expectation for request i (index into reqs, i >= 1)
 	const (
 		relExact  = iota // same string as the base result
 		relSameIP        // same address (peer decisive, header absent vs present: literal vs canonical form)
+		relIndep         // an unrelated request: its own reference reading
 	)
 	var rel []int
 
 	// ---- reference reading of the property: find the decisive hop
-	decisive := -2 // -2 = not applicable, -1 = every hop trusted
-	expect, haveExpect := "", false
+	expect, decisive, tag := c10Ref(c, nets, base)
+	haveExpect := true
+	if tag != "" {
+		tags = append(tags, tag)
+	}
 	switch c.Ext {
 	case 0:
-		expect, haveExpect = host, true
 		for _, a := range c.Alt {
 			reqs = append(reqs, c10Req{base.remote, base.real, unlat1s(a)})
 			rel = append(rel, relExact)
@@ -250,18 +358,7 @@ func c10Run(ci any) (res Result) {
 			rel = append(rel, relExact)
 		}
 	case 1:
-		hdr := ""
-		if len(base.real) > 0 {
-			hdr = base.real[0]
-		}
-		peerTrusted := c10RefTrusted(c, nets, hostIP)
-		if hdr != "" && peerTrusted && net.ParseIP(c10Strip(hdr)) != nil {
-			expect, haveExpect = c10Strip(hdr), true
-			tags = append(tags, "realip-header-used")
-		} else {
-			expect, haveExpect = host, true
-		}
-		if !peerTrusted {
+		if !c10RefTrusted(c, nets, hostIP) {
 			tags = append(tags, "realip-untrusted-peer")
 			// an untrusted peer controls every header: none of them may matter
 			for _, a := range c.AltR {
@@ -273,30 +370,11 @@ func c10Run(ci any) (res Result) {
 		}
 	case 2:
 		if len(base.xff) == 0 {
-			expect, haveExpect = host, true
-			tags = append(tags, "xff-absent")
 			break
 		}
 		ents := c10Entries(base.xff)
-		all := append(append([]string(nil), ents...), host)
-		decisive = -1
-		for i := len(all) - 1; i >= 0; i-- {
-			ip := net.ParseIP(c10Norm(all[i]))
-			if ip == nil {
-				decisive, expect, haveExpect = i, host, true
-				tags = append(tags, "xff-decisive-unparsable")
-				break
-			}
-			if !c10RefTrusted(c, nets, ip) {
-				decisive, expect, haveExpect = i, ip.String(), true
-				tags = append(tags, "xff-decisive-untrusted")
-				break
-			}
-		}
-		if decisive == -1 {
-			expect, haveExpect = c10Norm(all[0]), true
-			tags = append(tags, "xff-all-trusted")
-		} else if decisive == len(all)-1 {
+		nAll := len(ents) + 1
+		if decisive == nAll-1 {
 			tags = append(tags, "xff-peer-decisive")
 			// the peer itself is the right-most untrusted hop: the whole header is forgeable
 			for k, a := range c.Alt {
@@ -308,8 +386,8 @@ func c10Run(ci any) (res Result) {
 				reqs = append(reqs, c10Req{base.remote, base.real, c10Lines(unlat1s(a), k)})
 				rel = append(rel, relExact)
 			}
-		} else {
-			tags = append(tags, fmt.Sprintf("xff-decisive-depth-%d", c10Min(len(all)-1-decisive, 4)))
+		} else if decisive >= 0 {
+			tags = append(tags, fmt.Sprintf("xff-decisive-depth-%d", c10Min(nAll-1-decisive, 4)))
 			keep := ents[decisive:]
 			for k, a := range c.Alt {
 				v := append(append([]string(nil), unlat1s(a)...), keep...)
@@ -317,6 +395,18 @@ func c10Run(ci any) (res Result) {
 				rel = append(rel, relExact)
 			}
 		}
+	}
+	nRel := len(rel)
+	// unrelated requests through the same Echo / the same extractor closure, then the base
+	// request once more: nothing may be carried over from one request to the next
+	for _, m := range c.More {
+		reqs = append(reqs, c10Req{string(m.Remote), unlat1s(m.Real), unlat1s(m.XFF)})
+		rel = append(rel, relIndep)
+	}
+	if len(c.More) > 0 {
+		reqs = append(reqs, base)
+		rel = append(rel, relExact)
+		tags = append(tags, fmt.Sprintf("sequence-%d", c10Min(len(c.More), 4)))
 	}
 
 	// ---- run the real code and collect the tokens handed to net.ParseIP
@@ -394,16 +484,30 @@ func c10Run(ci any) (res Result) {
 	}
 	for k, kind := range rel {
 		rv := results[k+1]
+		if kind == relIndep {
+			q := reqs[k+1]
+			want, _, _ := c10Ref(c, nets, q)
+			if rv != want {
+				fail("request %d of the sequence (peer %q X-Real-Ip=%q X-Forwarded-For=%q): extractor %d returned %q, the property's reading gives %q",
+					k+1, q.remote, strings.Join(q.real, "|"), strings.Join(q.xff, "|"), c.Ext, rv, want)
+			}
+			if ph := c10Host(q.remote); net.ParseIP(ph) != nil && net.ParseIP(rv) == nil {
+				fail("request %d of the sequence: peer %q is a valid IP literal but the result %q is not", k+1, ph, rv)
+			}
+			continue
+		}
 		ok := rv == r0
 		if kind == relSameIP {
 			ok = rv == r0 || c10SameIP(rv, r0)
 		}
-		if !ok {
+		if !ok && k >= nRel {
+			fail("the base request served again after %d other requests through the same Echo gives %q, the first time it gave %q", len(c.More), rv, r0)
+		} else if !ok {
 			fail("changing only attacker-controlled input (variant %d: X-Real-Ip=%q X-Forwarded-For=%q) changed the result from %q to %q",
 				k+1, strings.Join(reqs[k+1].real, "|"), strings.Join(reqs[k+1].xff, "|"), r0, rv)
 		}
 	}
-	if len(rel) > 0 {
+	if nRel > 0 {
 		tags = append(tags, "relational")
 	}
 	if hostIP == nil {
@@ -425,6 +529,40 @@ func c10Run(ci any) (res Result) {
 	ops := wJoin("0", c.cfgWire(), wInt(c.Ext), strings.Join(tw, " "), wInt(len(reqs)), strings.Join(reqWire, " "))
 	return Result{Ops: ops, Obs: wJoin(wInt(len(reqs)), strings.Join(obs, " ")), Oracle: oracle, Tags: tags,
 		Nontrivial: r0 != host || len(rel) > 0}
+}
+
+// c10Ref is the property's own reading for one request: the expected result, the index of the
+// decisive hop among the X-Forwarded-For entries followed by the peer (-2 not applicable, -1
+// every hop trusted), and a tag for the evidence histogram.
+func c10Ref(c *c10Case, nets []*net.IPNet, q c10Req) (expect string, decisive int, tag string) {
+	host := c10Host(q.remote)
+	switch c.Ext {
+	case 0:
+		return host, -2, ""
+	case 1:
+		hdr := ""
+		if len(q.real) > 0 {
+			hdr = q.real[0]
+		}
+		if hdr != "" && c10RefTrusted(c, nets, net.ParseIP(host)) && net.ParseIP(c10Strip(hdr)) != nil {
+			return c10Strip(hdr), -2, "realip-header-used"
+		}
+		return host, -2, ""
+	}
+	if len(q.xff) == 0 {
+		return host, -2, "xff-absent"
+	}
+	all := append(c10Entries(q.xff), host)
+	for i := len(all) - 1; i >= 0; i-- {
+		ip := net.ParseIP(c10Norm(all[i]))
+		if ip == nil {
+			return host, i, "xff-decisive-unparsable"
+		}
+		if !c10RefTrusted(c, nets, ip) {
+			return ip.String(), i, "xff-decisive-untrusted"
+		}
+	}
+	return c10Norm(all[0]), -1, "xff-all-trusted"
 }
 
 // c10Lines spreads entries over header lines in a way determined by k.
@@ -483,7 +621,7 @@ func c10RunTable(c *c10Case) Result {
 		}
 		want := c10RefTrusted(c, nets, ip)
 		if d1 != want {
-			fail("peer %s: extractor trust decision %v, RFC ranges say %v (loopback=%v linklocal=%v private=%v, %d extra ranges)", text, d1, want, c.LB, c.LL, c.PN, len(c.Nets))
+			fail("peer %s: extractor trust decision %v, the configured ranges (RFC classes switched on + extra ranges) say %v (loopback=%v linklocal=%v private=%v, %d extra ranges)", text, d1, want, c.LB, c.LL, c.PN, len(c.Nets))
 		}
 		if d1 {
 			sb.WriteByte('1')
@@ -493,7 +631,7 @@ func c10RunTable(c *c10Case) Result {
 			nu++
 		}
 	}
-	tags := []string{"table", fmt.Sprintf("table-flags-%s%s%s", wBool(c.LB), wBool(c.LL), wBool(c.PN))}
+	tags := append([]string{"table", fmt.Sprintf("table-flags-%s%s%s", wBool(c.LB), wBool(c.LL), wBool(c.PN))}, c.optTags()...)
 	return Result{Ops: strings.Join(wire, " "), Obs: sb.String(), Oracle: oracle, Tags: tags, Nontrivial: nt > 0 && nu > 0}
 }
 
@@ -518,6 +656,12 @@ var c10Spaces = []string{" ", "  ", "\t", "\n", "\r\n", "\v", "\f", "\xc2\xa0", 
 var c10CIDRs = []string{"203.0.113.0/24", "8.8.0.0/16", "100.64.0.0/10", "2001:db8::/32", "::ffff:203.0.113.0/120", "0.0.0.0/0", "::/0",
 	"1.1.1.1/32", "172.32.0.0/11", "203.0.112.0/23", "198.51.100.0/31", "11.0.0.0/8", "fec0::/10", "::/96", "::ffff:0:0/96",
 	"8.8.8.8/31", "128.0.0.0/1", "2001:db8::1/128", "fe00::/9", "9.0.0.0/7", "172.0.0.0/12", "::2/127"}
+
+// ranges lying inside (or straddling the border of) a built-in class: what an operator lists
+// explicitly for "my proxies", possibly together with TrustPrivateNet(false)
+var c10ClassCIDRs = []string{"10.0.0.0/8", "10.1.0.0/16", "10.0.0.1/32", "172.16.0.0/12", "172.20.0.0/14", "192.168.0.0/16", "192.168.1.0/24",
+	"127.0.0.0/8", "127.0.0.1/32", "169.254.0.0/16", "169.254.169.254/32", "fc00::/7", "fd00::/8", "fd12:3456::/32", "fe80::/10", "fe80::/64",
+	"::1/128", "::ffff:10.0.0.0/104", "::ffff:192.168.0.0/112", "172.16.0.0/11", "192.168.0.0/15", "fe80::/9", "fc00::/6", "126.0.0.0/7", "10.0.0.0/7"}
 
 func c10Pick(r *rand.Rand, l []string) string { return l[r.Intn(len(l))] }
 
@@ -586,12 +730,27 @@ func c10Addr(r *rand.Rand, c *c10Case, class int) string {
 		if c.PN {
 			pool = append(pool, c10PrivateS...)
 		}
-		if len(pool) == 0 || r.Intn(6) == 0 {
-			// try an address inside an extra range
-			for _, n := range c.Nets {
-				if len(n.IP) == 4 || len(n.IP) == 16 {
-					return net.IP(n.IP).String()
+		if len(c.Nets) > 0 && (len(pool) == 0 || r.Intn(3) == 0) {
+			// an address inside one of the extra ranges: network address, last address or random host bits
+			n := c.Nets[r.Intn(len(c.Nets))]
+			if (len(n.IP) == 4 || len(n.IP) == 16) && len(n.Mask) == len(n.IP) {
+				ip := append(net.IP(nil), n.IP...)
+				switch r.Intn(3) {
+				case 0:
+				case 1:
+					for i := range ip {
+						ip[i] |= ^n.Mask[i]
+					}
+				default:
+					for i := range ip {
+						ip[i] = ip[i]&n.Mask[i] | byte(r.Intn(256))&^n.Mask[i]
+					}
 				}
+				s := ip.String()
+				if len(ip) == 16 && !strings.Contains(s, ":") {
+					s = "::ffff:" + s
+				}
+				return s
 			}
 		}
 		if len(pool) == 0 {
@@ -712,14 +871,22 @@ func c10ParseNet(s string) c10Net {
 func c10GenNets(r *rand.Rand) []c10Net {
 	var out []c10Net
 	k := 0
-	switch r.Intn(6) {
-	case 0, 1:
+	switch r.Intn(12) {
+	case 0, 1, 2, 3:
 		k = 1
-	case 2:
+	case 4, 5:
 		k = 2
+	case 6:
+		k = 3 + r.Intn(3)
+	case 7:
+		if r.Intn(6) == 0 {
+			k = 20 + r.Intn(2) // a long allow-list
+		}
 	}
 	for i := 0; i < k; i++ {
-		switch r.Intn(14) {
+		switch r.Intn(20) {
+		case 5, 6, 7, 8, 9, 10:
+			out = append(out, c10ParseNet(c10Pick(r, c10ClassCIDRs)))
 		case 0: // 16-byte forms of an IPv4 range
 			out = append(out, c10Net{IP: []byte(net.ParseIP("203.0.113.0")), Mask: []byte(net.CIDRMask(120, 128))})
 		case 1: // 4-byte address with a 16-byte mask
@@ -745,6 +912,76 @@ func c10GenNets(r *rand.Rand) []c10Net {
 	return out
 }
 
+// c10MkOpts turns a configuration (flags + ranges) into the option list an application might
+// write: canonical order, only the non-default flags, any interleaving (ranges before the
+// flags), flags given twice (the last one counts), no option at all for the defaults.
+func c10MkOpts(r *rand.Rand, lb, ll, pn bool, nets []c10Net) []c10Opt {
+	flags := []c10Opt{{K: 0, V: lb}, {K: 1, V: ll}, {K: 2, V: pn}}
+	var rng []c10Opt
+	for i := range nets {
+		n := nets[i]
+		rng = append(rng, c10Opt{K: 3, Net: &n})
+	}
+	onlyNonDefault := func() []c10Opt {
+		var o []c10Opt
+		for _, f := range flags {
+			if !f.V {
+				o = append(o, f)
+			}
+		}
+		return o
+	}
+	var out []c10Opt
+	switch r.Intn(8) {
+	case 0: // canonical: the three flags, then the ranges
+		out = append(append(out, flags...), rng...)
+	case 1: // only what differs from the defaults, ranges last
+		out = append(onlyNonDefault(), rng...)
+	case 2: // ranges first, then only what differs from the defaults
+		out = append(append(out, rng...), onlyNonDefault()...)
+	case 3: // ranges first, then all flags
+		out = append(append(out, rng...), flags...)
+	case 4, 5: // any interleaving
+		out = append(append(out, flags...), rng...)
+		if r.Intn(2) == 0 {
+			out = append(onlyNonDefault(), rng...)
+		}
+		r.Shuffle(len(out), func(i, j int) { out[i], out[j] = out[j], out[i] })
+	default: // flags given twice: an earlier, opposite value that must not survive; ranges in between
+		for _, f := range flags {
+			if r.Intn(2) == 0 {
+				out = append(out, c10Opt{K: f.K, V: !f.V})
+			}
+		}
+		for _, n := range rng {
+			if r.Intn(2) == 0 {
+				out = append(out, n)
+			}
+		}
+		r.Shuffle(len(out), func(i, j int) { out[i], out[j] = out[j], out[i] })
+		tail := append([]c10Opt(nil), flags...)
+		for _, n := range rng {
+			found := false
+			for _, o := range out {
+				if o.Net == n.Net {
+					found = true
+				}
+			}
+			if !found {
+				tail = append(tail, n)
+			}
+		}
+		r.Shuffle(len(tail), func(i, j int) { tail[i], tail[j] = tail[j], tail[i] })
+		out = append(out, tail...)
+	}
+	return out
+}
+
+func (c *c10Case) setCfg(r *rand.Rand, lb, ll, pn bool, nets []c10Net) {
+	c.Opts = c10MkOpts(r, lb, ll, pn, nets)
+	c.derive()
+}
+
 func c10GenList(r *rand.Rand, c *c10Case, n int) []string {
 	var out []string
 	for i := 0; i < n; i++ {
@@ -759,8 +996,15 @@ func c10GenReqCase(r *rand.Rand, big bool) *c10Case {
 	if r.Intn(3) == 0 {
 		f = 7 // the default configuration
 	}
-	c.LB, c.LL, c.PN = f&1 != 0, f&2 != 0, f&4 != 0
-	c.Nets = c10GenNets(r)
+	nets := c10GenNets(r)
+	if r.Intn(6) == 0 {
+		// "only my proxies": a class switched off, ranges inside it listed explicitly
+		f = []int{3, 5, 6, 0, 1, 2, 4}[r.Intn(7)]
+		for k := 1 + r.Intn(2); k > 0; k-- {
+			nets = append(nets, c10ParseNet(c10Pick(r, c10ClassCIDRs)))
+		}
+	}
+	c.setCfg(r, f&1 != 0, f&2 != 0, f&4 != 0, nets)
 	switch r.Intn(10) {
 	case 0:
 		c.Ext = 0
@@ -769,6 +1013,31 @@ func c10GenReqCase(r *rand.Rand, big bool) *c10Case {
 	default:
 		c.Ext = 2
 	}
+	q := c10GenReq(r, c, big)
+	c.Remote, c.Real, c.XFF = q.Remote, q.Real, q.XFF
+	for k := 1 + r.Intn(3); k > 0; k-- {
+		c.Alt = append(c.Alt, lat1s(c10GenList(r, c, r.Intn(4))))
+	}
+	c.AltR = lat1s(c10GenList(r, c, 1+r.Intn(2)))
+	if r.Intn(3) == 0 {
+		n := 1 + r.Intn(3)
+		if r.Intn(10) == 0 {
+			n = 5 + r.Intn(8)
+		}
+		for ; n > 0; n-- {
+			m := c10GenReq(r, c, false)
+			if r.Intn(3) == 0 {
+				m.Remote = q.Remote // the same peer again, with other headers
+			}
+			c.More = append(c.More, m)
+		}
+	}
+	return c
+}
+
+// c10GenReq generates one request for the configuration of c.
+func c10GenReq(r *rand.Rand, c *c10Case, big bool) c10ReqJ {
+	var q c10ReqJ
 	// peer: mostly a trusted proxy (otherwise headers never matter)
 	peerClass := 0
 	switch r.Intn(10) {
@@ -777,7 +1046,7 @@ func c10GenReqCase(r *rand.Rand, big bool) *c10Case {
 	case 2:
 		peerClass = 2
 	}
-	c.Remote = lat1(c10Remote(r, c10Addr(r, c, peerClass)))
+	q.Remote = lat1(c10Remote(r, c10Addr(r, c, peerClass)))
 	// X-Forwarded-For: client, ..., proxies; built as pre ++ [e] ++ suf with suf trusted
 	maxN := 5
 	if big {
@@ -827,7 +1096,7 @@ func c10GenReqCase(r *rand.Rand, big bool) *c10Case {
 		if r.Intn(15) == 0 {
 			lines = append([]string{""}, lines...)
 		}
-		c.XFF = lat1s(lines)
+		q.XFF = lat1s(lines)
 	}
 	if r.Intn(3) != 0 || c.Ext == 1 {
 		n := 1
@@ -837,13 +1106,9 @@ func c10GenReqCase(r *rand.Rand, big bool) *c10Case {
 		if r.Intn(12) == 0 {
 			n = 0
 		}
-		c.Real = lat1s(c10GenList(r, c, n))
+		q.Real = lat1s(c10GenList(r, c, n))
 	}
-	for k := 1 + r.Intn(3); k > 0; k-- {
-		c.Alt = append(c.Alt, lat1s(c10GenList(r, c, r.Intn(4))))
-	}
-	c.AltR = lat1s(c10GenList(r, c, 1+r.Intn(2)))
-	return c
+	return q
 }
 
 var c10TableFlags = [][3]bool{{true, true, true}, {true, false, false}, {false, true, false}, {false, false, true}}
@@ -867,7 +1132,9 @@ func c10GenTables(r *rand.Rand, tier string) []any {
 			fl = [][3]bool{c10TableFlags[0], c10TableFlags[1+b0%3]}
 		}
 		for _, f := range fl {
-			out = append(out, &c10Case{Kind: 1, LB: f[0], LL: f[1], PN: f[2], Addrs: addrs})
+			tc := &c10Case{Kind: 1, Addrs: addrs}
+			tc.setCfg(r, f[0], f[1], f[2], nil)
+			out = append(out, tc)
 		}
 	}
 	// structured IPv6 samples: every first byte x second-byte borders, ::/127 neighbourhood, mapped IPv4
@@ -889,7 +1156,9 @@ func c10GenTables(r *rand.Rand, tier string) []any {
 	for i := 0; i < len(v6); i += 512 {
 		j := c10Min(i+512, len(v6))
 		for _, f := range c10TableFlags {
-			out = append(out, &c10Case{Kind: 1, LB: f[0], LL: f[1], PN: f[2], Addrs: v6[i:j]})
+			tc := &c10Case{Kind: 1, Addrs: v6[i:j]}
+			tc.setCfg(r, f[0], f[1], f[2], nil)
+			out = append(out, tc)
 		}
 	}
 	// tables under extra ranges
@@ -898,10 +1167,12 @@ func c10GenTables(r *rand.Rand, tier string) []any {
 		m = 300
 	}
 	for i := 0; i < m; i++ {
-		c := &c10Case{Kind: 1, LB: r.Intn(2) == 0, LL: r.Intn(2) == 0, PN: r.Intn(2) == 0}
-		for len(c.Nets) == 0 {
-			c.Nets = c10GenNets(r)
+		c := &c10Case{Kind: 1}
+		var tn []c10Net
+		for len(tn) == 0 {
+			tn = c10GenNets(r)
 		}
+		c.setCfg(r, r.Intn(2) == 0, r.Intn(2) == 0, r.Intn(2) == 0, tn)
 		for k := 0; k < 64; k++ {
 			switch r.Intn(3) {
 			case 0:
@@ -979,7 +1250,8 @@ func c10Shrink(ci any) []any {
 	var out []any
 	cp := func() *c10Case {
 		d := *c
-		d.Nets = append([]c10Net(nil), c.Nets...)
+		d.Opts = append([]c10Opt(nil), c.Opts...)
+		d.More = append([]c10ReqJ(nil), c.More...)
 		d.Real = append([]lat1(nil), c.Real...)
 		d.XFF = append([]lat1(nil), c.XFF...)
 		d.Alt = append([][]lat1(nil), c.Alt...)
@@ -1005,13 +1277,27 @@ func c10Shrink(ci any) []any {
 			}
 		}
 	}
-	for i := range c.Nets {
+	for i := range c.Opts {
 		d := cp()
-		d.Nets = append(d.Nets[:i], d.Nets[i+1:]...)
+		d.Opts = append(d.Opts[:i], d.Opts[i+1:]...)
 		out = append(out, d)
 	}
 	if c.Kind == 1 {
 		return out
+	}
+	if len(c.More) > 0 {
+		d := cp()
+		d.More = nil
+		out = append(out, d)
+		for i := range c.More {
+			d := cp()
+			d.More = append(d.More[:i], d.More[i+1:]...)
+			out = append(out, d)
+			// a failing request of the sequence on its own
+			d = cp()
+			d.Remote, d.Real, d.XFF, d.More = c.More[i].Remote, c.More[i].Real, c.More[i].XFF, nil
+			out = append(out, d)
+		}
 	}
 	for i := range c.Alt {
 		d := cp()
@@ -1062,21 +1348,6 @@ func c10Shrink(ci any) []any {
 			}
 		}
 	}
-	if c.LB {
-		d := cp()
-		d.LB = false
-		out = append(out, d)
-	}
-	if c.LL {
-		d := cp()
-		d.LL = false
-		out = append(out, d)
-	}
-	if c.PN {
-		d := cp()
-		d.PN = false
-		out = append(out, d)
-	}
 	return out
 }
 
@@ -1090,7 +1361,7 @@ func c10Min(a, b int) int {
 func init() {
 	register(&Prop{
 		ID:             "C10",
-		Rule:           "(a) requests: extractor {direct, X-Real-IP, X-Forwarded-For} x all 8 trust-flag combinations x 0-2 extra ranges (CIDR pool, random prefix lengths, 16-byte / mixed-length / non-contiguous IPNets) x peers (RemoteAddr with ports, brackets, malformed) x X-Forwarded-For lists built as prefix ++ [untrusted or unparsable entry] ++ trusted suffix over 0-4 header lines with spaces (ASCII and Unicode), brackets, garbage, IPv4 / IPv6 / IPv4-mapped literals, plus free-form lists; every case also runs variants that differ only in attacker-controlled input (entries left of the decisive hop, headers of an untrusted peer) and requires the same result; each request goes through Context.RealIP and the extractor directly. (b) classification tables: for every first octet and every (thorough) or boundary (quick) second octet the trust decision for b0.b1.0.1 and b0.b1.255.254 observed through both header extractors, under all-flags and single-flag configurations; structured IPv6 samples (every first byte x second-byte borders, ::1 neighbourhood, IPv4-mapped); tables around the borders of extra ranges. non-trivial = a request whose result differs from the peer or that ran relational variants, or a table containing both trusted and untrusted addresses; distinct = distinct model op lines",
+		Rule:           "(a) requests: extractor {direct, X-Real-IP, X-Forwarded-For} x all 8 trust-flag combinations x 0-5 (rarely 20/21) extra ranges (CIDR pool incl. ranges inside / straddling the built-in classes, random prefix lengths, 16-byte / mixed-length / non-contiguous IPNets), passed as an ORDERED option list: canonical, only the non-default flags (down to no option at all), ranges before flags, any interleaving, flags given twice with the last value counting x peers (RemoteAddr with ports, brackets, malformed) x X-Forwarded-For lists built as prefix ++ [untrusted or unparsable entry] ++ trusted suffix over 0-4 header lines with spaces (ASCII and Unicode), brackets, garbage, IPv4 / IPv6 / IPv4-mapped literals, plus free-form lists; every case also runs variants that differ only in attacker-controlled input (entries left of the decisive hop, headers of an untrusted peer) and requires the same result; each request goes through Context.RealIP and the extractor directly; a third of the cases continue with 1-12 unrelated requests (own reference reading each) through the same Echo instance and extractor closure and then repeat the base request. (b) classification tables: for every first octet and every (thorough) or boundary (quick) second octet the trust decision for b0.b1.0.1 and b0.b1.255.254 observed through both header extractors, under all-flags and single-flag configurations; structured IPv6 samples (every first byte x second-byte borders, ::1 neighbourhood, IPv4-mapped); tables around the borders of extra ranges. non-trivial = a request whose result differs from the peer or that ran relational variants, or a table containing both trusted and untrusted addresses; distinct = distinct model op lines",
 		New:            func() any { return &c10Case{} },
 		Gen:            c10Gen,
 		Run:            c10Run,
